@@ -362,6 +362,10 @@ class Machine:
         self.impls = {}
         self.const_cache = {}
         self.trace_calls = None
+        self.departures = 0          # C13 departure mode: departures taken on this path
+        self.departure_budget = None
+        self.dep_selectors = {}      # selector name -> z3 var (QName retargeting selectors)
+        self.dep_counted = set()
         cached = Machine._index_memo.get(id(bodies))
         if cached is not None:
             self.closures, self.impl_list, self.impls = cached
@@ -475,11 +479,24 @@ class Machine:
             keep = ts if d else fs
             cur = self.allowed.get(name)
             self.allowed[name] = (cur & keep) if cur is not None else set(keep)
+            if name in self.dep_selectors and name not in self.dep_counted and 0 not in self.allowed[name]:
+                self.dep_counted.add(name)
+                self.departures += 1
         return d
 
     def truth(self, v):
         if isinstance(v, bool):
             return v
+        if isinstance(v, tuple) and len(v) == 2 and v[0] == 'present-unless':
+            # departure mode: the item is present unless the drop flag is set; the budget is a cardinality bound kept here
+            flag = v[1]
+            if self.departure_budget is not None and self.departures >= self.departure_budget:
+                self.pc.append(z3.Not(flag))
+                return True
+            dropped = self.branch(flag)
+            if dropped:
+                self.departures += 1
+            return not dropped
         if isinstance(v, int):
             return v != 0
         if isinstance(v, SymVal):
@@ -494,6 +511,14 @@ class Machine:
 
     def prune(self, v):
         """drop alternatives excluded by the path's selector narrowing"""
+        if isinstance(v, SymVal) and self.dep_selectors and self.departure_budget is not None and self.departures >= self.departure_budget:
+            for g, _ in v.alts:
+                if g.cube:
+                    for name in g.cube:
+                        if name in self.dep_selectors and name not in self.dep_counted and self.allowed.get(name) != {0}:
+                            if 0 in self.allowed.get(name, {0}):
+                                self.allowed[name] = {0}
+                                self.pc.append(self.dep_selectors[name] == 0)
         if isinstance(v, SymVal) and self.allowed:
             alts = lift(v, self.allowed)
             if len(alts) == 1:
